@@ -397,7 +397,7 @@ EXTRA = {
     "C06": " Values of kinds the table does not list (error object, builtin function, closure, named function, file handle) in "
            "every position; every && / || expression over 17 atoms printed at top level and inside a filter action of the same "
            "run (578 expressions) must print alike."
-           " The table's values also come in their other written forms directly in each position (the NUL character / byte as a literal holding the raw character, comparisons and negated comparisons incl. the unordered ones with NaN, double negation: 1 196 settled cases). With the output not suppressed, a falsey value never selects the packet - neither as the pattern of a filter without an action (only `true` selects there) nor in front of an action.",
+           " The table's values also come in their other written forms directly in each position (the NUL character / byte as a literal holding the raw character, comparisons and negated comparisons incl. the unordered ones with NaN, double negation: 1 196 settled cases). With the output not suppressed, a falsey value never selects the packet - neither as the pattern of a filter without an action (only `true` selects there) nor in front of an action. Stacked negations (1, 2, 4) as the condition of an if / else and of the last link of an else-if chain; && and || behind 36 KB of code (jump targets beyond 32 KiB), at top level and in a function.",
     "C07": " Further families: every block-carrying construct in statement position x every kind of last statement of its block "
            "(13 x 10, at top level and inside a function); $n outside packet processing; loop nests with one label on every "
            "level. The same executions are replayed in lock step against the machine specification spec/VM.tla by "
@@ -426,7 +426,7 @@ EXTRA = {
            " Container contracts: numerically equal keys of different kinds through insert / get / contains with 0 / 3 / 40 other entries; first / last / rest / len / sort / join / str / contains / get leave the array they are handed as it was (observed through an alias).",
     "C13": " String, character and byte literals spanning lines include ones that end or start with a line break and ones made "
            "of line breaks only."
-           " Expressions written over several lines (12 ways of placing the failing construct on a later line than the statement's first: operands, arguments, elements, map values, match arms and scrutinees, if / else branches, closure bodies, nested): the renderer marks, per node, the token the failing operation is compiled from and RefSem reports that line. A match whose scrutinee cannot be ordered against a range pattern fails on the arm's line (RefSem: PatHolds 'e'). End to end: failures that exist only while a packet is processed ($n beyond the deepest layer, a header field assigned a value of the wrong kind) in actions and in functions called from actions; scripts of 65 534 - 70 003 (thorough 200 001) lines.",
+           " Expressions written over several lines (12 ways of placing the failing construct on a later line than the statement's first: operands, arguments, elements, map values, match arms and scrutinees, if / else branches, closure bodies, nested): the renderer marks, per node, the token the failing operation is compiled from and RefSem reports that line. A match whose scrutinee cannot be ordered against a range pattern fails on the arm's line (RefSem: PatHolds 'e'). End to end: failures that exist only while a packet is processed ($n beyond the deepest layer, a header field assigned a value of the wrong kind) in actions and in functions called from actions; scripts of 65 534 - 70 003 (thorough 200 001) lines. Comment lines of every form (with / without text, # and //, trailing blanks) in front of statements; rejected assignments to fields of every layer (Ethernet, IPv4, TCP, record header) in filter actions.",
     "C14": " Forward-jump distance scenarios (if / while exit [thorough: match arm]) just under and over 65535 bytes run in "
            "both tiers. The traced executions are also replayed in lock step against spec/VM.tla (spec/VMRun.tla): every "
            "operand-bearing instruction must have the effect its encoded operand prescribes (ip, opcode, function, digest of "
@@ -436,7 +436,7 @@ EXTRA = {
            " Every kind of jump (if / else, while, loop + break, continue, labelled break / continue, match, && / ||) behind a stretch of straight-line code just short of / just beyond the reach of a 16-bit target, and the stretch inside the loop (only the way out is out of reach); closures called where they are written with 255 / 256 captured variables; 65 536 / 65 537 global variables.",
     "C17": " Two-assignment sequences pair a field of one layer with a structure-selecting field re-assigned the value it "
            "already has (structure unchanged, so every later read stays decided), in both orders."
-           " Frames the fixed stacks do not have: two 802.1Q tags in a row (assignments to the inner tag and below it), IPv4 / TCP headers whose length field is below the minimum (an assignment still patches exactly its bits).",
+           " Frames the fixed stacks do not have: two 802.1Q tags in a row (assignments to the inner tag and below it), IPv4 / TCP headers whose length field is below the minimum (an assignment still patches exactly its bits). IPv6 tunnelled in IPv4 (protocol 41), the outer header with and without options, assignments to the inner layers.",
     "C19": " Every 4th history reads the same bytes as a stream on standard input (pcap_stream(stdin)) through the binary; the "
            "record header pcap_write writes is compared too. NothingLost is also discharged as an inductive invariant by "
            "Apalache (spec/PcapFileInd.tla, the typed form of the machine): base case and inductive step for every file of up "
@@ -447,7 +447,7 @@ EXTRA = {
            "written so far. The machine's invariant (results are a prefix of the content, each byte once; short only at the end; "
            "a call is answered only from bytes that have arrived) is also discharged as an inductive invariant by Apalache "
            "(spec/FileIOInd.tla): contents of up to 8 arbitrary bytes, every delivery schedule, call histories of every length."
-           " Programs end with their last statement, with exit(n) or with a runtime error: what was written is in the file in every case. Text asked of input that is not well-formed UTF-8 (read_line / read_to_string on binary content, on a sequence cut short at the end) must be an error object, never an altered text (WellFormedUtf8 in spec/FileIOFn.tla).",
+           " Programs end with their last statement, with exit(n) or with a runtime error: what was written is in the file in every case. Text asked of input that is not well-formed UTF-8 (read_line / read_to_string on binary content, on a sequence cut short at the end) must be an error object, never an altered text (WellFormedUtf8 in spec/FileIOFn.tla). Two or three writers open at once, written to in turns, x every way of ending; a quarter of the pipe runs reach the standard input through open of /dev/stdin.",
     "C23": " Rejected lines include ones the compiler rejects after entering nested scopes and making definitions there (block, "
            "if, loop, named function body, anonymous function); later lines read names from nested scopes."
            " What every accepted line prints is compared with what the same line prints as the last line of a script made of the lines accepted before it (both recorded, spec/ReplTrace.tla 'output'), including lines that are just a value (falsey ones too); sessions define functions whose bodies are the same text under parameter lists of different length and call them.",
@@ -456,7 +456,7 @@ EXTRA = {
     "C12": " Print scripts include texts with a line break followed by 700-5 000 characters without one (the standard output is line buffered: the tail goes out in a write of its own).",
     "C16": " The seven properties of the pcap object against the 24 bytes of the global header (spec/PcapHdrTrace.tla: byte order from the magic number, thiszone signed, the others unsigned; boundary and random values of every field).",
     "C18": " Addresses of an IPv4 header that carries options.",
-    "C22": " The operation table has 56 entries: content that stops being pcap behind a valid global header (damaged first record; damage after a good record: the good record is delivered, every read at and after the damage fails), a pcap stream on a full standard output.",
+    "C22": " The operation table has 58 entries: content that stops being pcap behind a valid global header (damaged first record; damage after a good record: the good record is delivered, every read at and after the damage fails), a magic number that is wrong in its low half only, a pcap stream on a full standard output.",
 }
 
 
